@@ -53,6 +53,11 @@ EXTRA_SHAPES = [
     ('assoc-and-skip', [204004, 31021, 12001, 206008, 63250, 1015, 204000, 206012, 63251]),
     ('loop-with-ops-inside', [103002, 201130, 12001, 201000, 104000, 31001, 202129, 12001, 4024, 202000]),
     ('nested-loops', [102003, 1001, 103000, 31001, 12001, 101002, 4024, 2001]),
+    # a whole bitmap construct (closed by 235000) inside a replication that runs several times
+    ('bitmap-in-fixed-replication', [109003, 12001, 4024, 222000, 101002, 31031, 101000, 31001, 33007, 235000]),
+    ('bitmap-in-delayed-replication', [110000, 31001, 12001, 4024, 5001, 223000, 101003, 31031, 101000, 31001, 223255, 235000]),
+    ('first-bitmap-in-replication-then-another', [109002, 12001, 4024, 222000, 101002, 31031, 101000, 31001, 33007, 235000,
+                                                  10004, 224000, 101001, 31031, 8023, 101000, 31001, 224255]),
     # several marker operators in one subset whose operator context differs from marker to marker
     ('markers-201-then-none', [12001, 12003, 223000, 101002, 31031, 201130, 223255, 201000, 223255]),
     ('markers-none-then-202', [12001, 12003, 232000, 101002, 31031, 232255, 202129, 232255, 202000]),
